@@ -22,6 +22,19 @@ from .core import SimCrash, HarnessError
 # ------------------------------------------------------------------ N1 random
 
 
+class _DetachedRandom(RandomSource):
+    """what a SimRandom becomes on the far side of the simulated process boundary: drawing from it is a harness error"""
+
+    def __init__(self, name):
+        self.name = name
+
+    def randint(self, min, max):
+        raise RuntimeError("a worker-side copy drew from the search's shared random source")
+
+    def random_float(self, min, max):
+        raise RuntimeError("a worker-side copy drew from the search's shared random source")
+
+
 class SimRandom(RandomSource):
     """RandomSource whose two abstract primitives are answered from choice stream R.
 
@@ -48,6 +61,11 @@ class SimRandom(RandomSource):
 
     def getstate(self):
         return self.draws
+
+    def __reduce__(self):
+        # a copy that crosses the simulated process boundary (individual -> representation -> decider -> random source) must not
+        # drag the simulator along: the worker side only maps and evaluates, it never draws from the shared stream
+        return (_DetachedRandom, (self.name,))
 
     def reset_cap(self):
         self.op_draws = 0
